@@ -784,7 +784,13 @@ pub fn main_proto() {
             jobs2.push(Job { input: i, api: "model_load" });
         }
     }
-    let res2 = run_jobs("p2", &inputs, &jobs2, 128, timeout_ms);
+    // Large inputs (deep nesting, > 4 KB) get a CPU budget proportional to
+    // their size: 10 ms per KB on top of the base budget.
+    let (big, small): (Vec<Job>, Vec<Job>) = jobs2.into_iter().partition(|j| inputs[j.input].blackbox_only);
+    let max_kb = big.iter().map(|j| inputs[j.input].bytes.len() / 1024).max().unwrap_or(0) as u64;
+    let mut res2 = run_jobs("p2", &inputs, &small, 128, timeout_ms);
+    res2.extend(run_jobs("p2big", &inputs, &big, 4, timeout_ms + 10 * max_kb));
+    let jobs2: Vec<Job> = small.into_iter().chain(big.into_iter()).collect();
     eprintln!("phase 2: {} jobs {:.1}s", jobs2.len(), t0.elapsed().as_secs_f64());
     for (j, recs) in jobs2.iter().zip(res2.into_iter()) {
         per_input[j.input].extend(recs);
